@@ -12,8 +12,9 @@ pub fn gen(r: &mut Rng) -> Value {
     let mut budget = 8;
     let body = c04::gen_block_ret(r, 0, &mut c, &mut budget, true);
     let ncalls = 1 + r.below(3);
-    let calls: Vec<Value> = (0..ncalls).map(|i| json!({"out": if r.chance(3, 4) { json!(format!("o{}", i)) } else { Value::Null }, "arg": format!("a{}", i)})).collect();
-    json!({ "body": body, "calls": calls, "scoped": r.chance(1, 3) })
+    // output variables are drawn from a small pool, so they are reused across calls and may already be defined
+    let calls: Vec<Value> = (0..ncalls).map(|i| json!({"out": if r.chance(3, 4) { json!(format!("o{}", r.below(2))) } else { Value::Null }, "arg": format!("a{}", i)})).collect();
+    json!({ "body": body, "calls": calls, "scoped": r.chance(1, 3), "preset": r.chance(1, 2) })
 }
 
 fn ret_inside_for(block: &Vec<Value>, in_for: bool) -> bool {
@@ -77,6 +78,9 @@ fn run_inner(input: &Value) -> Option<Value> {
     let mut lines = vec![if scoped { "fn <scope> f".to_string() } else { "fn f".to_string() }, "trace = set \"${trace} in:${1}\"".to_string()];
     c04::render(&body, &mut lines);
     lines.push("end".to_string());
+    if input["preset"].as_bool().unwrap_or(false) {
+        lines.push("o0 = set old".to_string());
+    }
     for c in &calls {
         let arg = c["arg"].as_str()?;
         match c["out"].as_str() {
@@ -88,6 +92,9 @@ fn run_inner(input: &Value) -> Option<Value> {
     // model
     let mut vars: BTreeMap<String, String> = BTreeMap::new();
     let mut steps = 0;
+    if input["preset"].as_bool().unwrap_or(false) {
+        vars.insert("o0".to_string(), "old".to_string());
+    }
     for c in &calls {
         let arg = c["arg"].as_str()?.to_string();
         // the call instruction first clears its output variable (command result without value)
@@ -112,7 +119,11 @@ fn run_inner(input: &Value) -> Option<Value> {
                     vars.insert(o.to_string(), v);
                 }
                 _ => {
-                    vars.remove(o);
+                    // corner left open by the statement: a <scope> call without a value keeps the caller's
+                    // old value of the output variable (the saved map is restored as it was)
+                    if !scoped {
+                        vars.remove(o);
+                    }
                 }
             }
         }
